@@ -361,27 +361,97 @@ class AtomCtx:
             hx(self.target), hx(self.old), hx(self.peer), hx(self.target), hx(self.new),
             hx(self.target), hx(self.new), hx(self.target), hx(self.old))
 
-    def run(self, fault_args):
-        """one run in a fresh scratch directory -> dict"""
+    def run(self, fault_args, content=None, extra_files=None, script=None):
+        """one run in a fresh scratch directory -> dict (content / extra_files: the directory as an earlier run left it)"""
         d = tempfile.mkdtemp(prefix="r", dir=self.base)
         path = os.path.join(d, "passwd.json")
         try:
             with open(path, "wb") as fh:
-                fh.write(self.spec["content"].encode("utf-8"))
-            rc, ev, err = run_harness(["run", path] + list(fault_args), self.script)
+                fh.write(self.spec["content"].encode("utf-8") if content is None else content)
+            for name, data in (extra_files or {}).items():
+                with open(os.path.join(d, name), "wb") as fh:
+                    fh.write(data)
+            rc, ev, err = run_harness(["run", path] + list(fault_args), script or self.script)
             try:
                 with open(path, "rb") as fh:
                     after = fh.read()
             except FileNotFoundError:
                 after = None
             leftovers = sorted(f for f in os.listdir(d) if f != "passwd.json")
+            left = {}
+            for name in leftovers:
+                try:
+                    with open(os.path.join(d, name), "rb") as fh:
+                        left[name] = fh.read()
+                except OSError:
+                    pass
             if after is None:
                 pr = dict(state="missing", accepted=None, log=[], crash=None, err="")
             else:
                 pr = probe(path, self.pairs)
-            return dict(rc=rc, ev=ev, err=err, after=after, leftovers=leftovers, probe=pr)
+            return dict(rc=rc, ev=ev, err=err, after=after, leftovers=leftovers, left=left, probe=pr)
         finally:
             shutil.rmtree(d, ignore_errors=True)
+
+    def recover(self, run, state, res, desc):
+        """the daemon is started again on the directory a crashed update left (credential file plus whatever else lies there) and the
+        same authorised change is requested with another new password: it has to be carried out, and to be effective on disk"""
+        new2 = _fresh_pw(self.spec, self.label + "/after-restart")
+        cur = self.old if state == "old" else self.new
+        script = "check %s %s\npasswd %s %s %s\ncheck %s %s\ncheck %s %s\n" % (
+            hx(self.target), hx(cur), hx(self.peer), hx(self.target), hx(new2),
+            hx(self.target), hx(new2), hx(self.target), hx(cur))
+        try:
+            r2 = self.run([], content=run["after"], extra_files=run["left"], script=script)
+        except Hung as e:
+            res.viol.append(("authfile/change-after-restart-does-not-terminate", "%s\n%s" % (desc, e)))
+            return
+        res.stats["restarts-after-crash"] += 1
+        if run["left"]:
+            res.stats["restarts-after-crash:with-leftover-files"] += 1
+        sk = sanitizer_key(r2["rc"], r2["err"])
+        pres = [e for e in r2["ev"] if e.get("ev") == "result" and e.get("op") == "passwd"]
+        chk = {e["idx"]: e["ok"] for e in r2["ev"] if e.get("ev") == "result" and e.get("op") == "check"}
+        pairs = [(self.target, new2), (self.target, self.old), (self.target, self.new)]
+        disk = None
+        if r2["after"] is not None:
+            d = tempfile.mkdtemp(prefix="p", dir=self.base)
+            try:
+                pth = os.path.join(d, "passwd.json")
+                with open(pth, "wb") as fh:
+                    fh.write(r2["after"])
+                pr = probe(pth, pairs)
+                disk = pr["accepted"] if pr["state"] == "loaded" else pr["state"]
+            finally:
+                shutil.rmtree(d, ignore_errors=True)
+
+        def wit():
+            return "\n".join([
+                "first run: passwd by peer user %r for target %r (kind %s), new password %r; %s" % (
+                    self.peer, self.target, self.tuser["kind"], self.new, desc),
+                "directory after the crash: passwd.json = %s credential set (%d bytes); other files: %r" % (
+                    state.upper(), len(run["after"]), {k: len(v) for k, v in run["left"].items()}),
+                "second run (fresh process on that directory, no fault): passwd by %r for %r, new password %r" % (self.peer, self.target, new2),
+                "reported to the peer: %s" % (json.dumps(pres[0].get("response"))[:300] if pres else "nothing (exit %s)" % r2["rc"]),
+                "file-system calls of the second run: %s" % _calls_summary(r2["ev"]),
+                "in-process afterwards: new password accepted=%s, previous accepted=%s" % (chk.get(3), chk.get(4)),
+                "fresh loader on the file afterwards accepts (second new, original, first new): %r" % (disk,),
+                "files left afterwards: %r" % r2["leftovers"],
+            ])
+        if sk is not None:
+            res.viol.append(("mem/%s:change-after-restart" % sk, wit() + "\n" + r2["err"][-1500:]))
+            return
+        if r2["rc"] != 0 or not pres:
+            raise HarnessProblem("restart run: exit %s, %d results: %s" % (r2["rc"], len(pres), r2["err"][-300:]))
+        lf = "leftover-files" if run["left"] else "clean-directory"
+        if not pres[0]["ok"]:
+            res.viol.append(("authz/authorised-change-refused:after-restart-on-crashed-update:%s" % lf, wit()))
+        elif chk.get(3) is False or chk.get(4) is True:
+            res.viol.append(("authz/change-not-effective:after-restart-on-crashed-update:%s" % lf, wit()))
+        elif disk != [True, False, False]:
+            res.viol.append(("authfile/change-after-restart-not-on-disk:%s" % lf, wit()))
+        else:
+            res.stats["restarts-after-crash:change-carried-out-and-effective"] += 1
 
     def state_of(self, pr):
         if pr["state"] != "loaded":
@@ -562,6 +632,13 @@ def eval_fault_run(ctx, f, res):
                 v("authz/authorised-change-refused:fault-free")
     if run["leftovers"]:
         res.stats["obs/extra-files-left-in-directory:%s" % ("after-crash" if crashing else "no-crash")] += 1
+    if crashing and run["rc"] == 42 and state in ("old", "new"):
+        # every distinct directory state a crash leaves is restarted on once
+        dk = (ctx.label, state, tuple(sorted((k, hashlib.sha1(v).hexdigest()) for k, v in run["left"].items())))
+        seen = ctx.__dict__.setdefault("restarted", set())
+        if dk not in seen:
+            seen.add(dk)
+            ctx.recover(run, state, res, _fault_desc(f))
     return run
 
 
